@@ -230,7 +230,7 @@ class ForwardScheduler(IScheduler):
             days += 1
 
             if days > max_steps:
-                raise RuntimeError(f"Can't calculate {resource}, {start_date}, {max_steps}, {left_hours}")
+                raise RuntimeError(f"Can't calculate {resource.name}, {start_date}, {max_steps}, {left_hours}")
 
         reserved = resource_usage.reserved(resource, date) if self.__balance_resources \
             else resource_usage.reserved(resource, date, task)
